@@ -249,8 +249,8 @@ def gen_history(rng, lang, opts):
     for _ in range(nops):
         r = rng.randrange(nregs)
         pick = rng.choice(allowed)
-        if pick == "assume":
-            n = rng.choice([1, 1, 1, 2, 2, 3])
+        if pick in ("assume", "assume1"):
+            n = 1 if pick == "assume1" else rng.choice([1, 1, 1, 2, 2, 3])
             cs = [lang_cst(rng, lang, nv, ks) for _ in range(n)]
             ops.append("assume %d %d %s" % (r, n, " ".join(map(fmt_cst, cs))))
             regs[r] = ref.add(regs[r], cs)
@@ -450,6 +450,11 @@ DEFECTS = [
     "P 1100 hist 2 4 ; assume 0 1 C le E 2 -1 1 1 2 -5 ; assume 0 2 C le E 2 -1 0 1 1 -5 C le E 2 1 0 -1 2 2 ; copy 1 0 ; forget 1 3 2 3 0",
     "hist 3 4 ; assume 2 1 C le E 2 -1 1 1 2 1 ; assume 1 1 C lt E 2 -1 1 1 2 -20 ; assume 1 1 C lt E 2 1 1 -1 3 -5 ; assume 1 2 C le E 1 -1 2 2 C le E 2 -1 2 1 3 3 ; meet 0 1 2",
 ]
+DEFECTS.append(
+    # incremental closure around a new edge must relax ALL improved (source, destination) pairs: five vertices,
+    # the first destination already tight (a seeded change made the loop stop there)
+    "P 1110 hist 2 6 ; assume 0 1 C le E 2 1 0 -1 1 -7 ; assume 0 1 C le E 2 -1 1 1 2 -5 ; assume 0 1 C le E 2 1 2 -1 3 -4 ; "
+    "assume 0 1 C le E 2 1 3 -1 4 -6 ; assume 0 1 C le E 2 -1 4 1 5 0 ; assume 0 1 C le E 2 -1 0 1 4 -1 ; assume 0 1 C le E 1 1 1 -3 ; q_at 0")
 CORPUS["zone"] = CORPUS["zone"] + DEFECTS
 CORPUS["oct"] = CORPUS["oct"] + [
     # integer tightening of weights above 2^24 (fixed: graphdom-2)
@@ -473,7 +478,7 @@ def gen(seed, tier, lang, n=None, opts=None):
     if opts.get("ops"):
         # keep the corpus histories that only use the operations of this stream
         names = set(opts["ops"]) | {"q_entails", "q_leq", "q_at"}
-        if "bounds" in names:
+        if "bounds" in names or "assume1" in names:
             names.add("assume")
         def ops_of(l):
             t = l.split()
